@@ -238,6 +238,7 @@ func init() {
 		Assumptions: []string{
 			"the plain (un-memoized) build of the same grammar is the oracle; a defect common to both builds is invisible here (C01 judges results against the reference)",
 			"determinism across processes (different map iteration seeds) is covered by Go's per-iteration map randomisation inside one process; no second process is started",
+			"grammars with text.RightTrim are not generated here: RightTrim over a memoized operand is observably different from the plain build because of known finding K1 (recorded and monitored under C07, where its signature can be checked precisely)",
 		},
 	})
 }
